@@ -494,8 +494,11 @@ Proof.
   unfold send.
   change (owner_of (bump_id st) d) with (owner_of st d).
   destruct (owner_of st d) as [o|] eqn:Ho.
-  { simpl. eapply inv_call_immediate; eauto; try reflexivity; [discriminate|].
-    change (st_owners (bump_id st)) with (st_owners st). destruct (pol_deliver cf _ cl); reflexivity. }
+  { destruct (deliver cf (names_of (st_owners (bump_id st)) o) (fd_capable (bump_id st) o) (st_replies (bump_id st)) o (n_calls tr) c s cl) as [rp x] eqn:D.
+    simpl. eapply inv_call_immediate; eauto; try reflexivity; [discriminate|].
+    unfold fates. simpl. rewrite app_nil_r.
+    pose proof (deliver_fate cf (names_of (st_owners (bump_id st)) o) (fd_capable (bump_id st) o) (st_replies (bump_id st)) o (n_calls tr) c s cl) as F.
+    rewrite D in F. exact F. }
   destruct na.
   { simpl. eapply inv_call_immediate; eauto; try reflexivity. discriminate. }
   destruct (activate cf (bump_id st) c (n_calls tr) s d true cl) as [st' o] eqn:A. simpl.
@@ -526,10 +529,13 @@ Proof.
   - unfold resolve, created. simpl.
     destruct (find_pending (Wk k) (st_pend st)) as [p|] eqn:F; simpl.
     + apply find_pending_In in F as F'. destruct F' as [Hp Hname].
+      match goal with |- context [replay_outs cf ?s1 c p] => set (st1 := s1) end.
+      pose proof (fates_replay cf st1 c p) as FR. change (answered_in_created st1) with (answered_in_created st) in FR.
+      destruct (replay_outs cf st1 c p) as [rp ro] eqn:R. cbn [snd] in FR. simpl.
       eapply (inv_remove cf st tr _ _ _ (fun q => negb (bname_eqb (p_name q) (Wk k)))); eauto; try reflexivity.
-      * rewrite !fates_app, fates_created, fates_replay. simpl. rewrite app_nil_r.
+      * rewrite !fates_app, fates_created, FR. simpl. rewrite app_nil_r.
         apply (nodup_split_filter e_id (answered_in_created st) (p_entries p)). apply (ids_of_nodup cf st tr p I Hp).
-      * intros i. rewrite !fates_app, fates_created, fates_replay. simpl. rewrite app_nil_r.
+      * intros i. rewrite !fates_app, fates_created, FR. simpl. rewrite app_nil_r.
         rewrite (in_split_filter e_id (answered_in_created st) (p_entries p) i). split.
         -- intros Hi. exists p. repeat split; auto. rewrite Hname, bname_eqb_refl. reflexivity.
         -- intros [q [Hq [G Hi]]]. apply negb_false_iff, bname_eqb_eq in G.
